@@ -57,7 +57,7 @@ column_setting = _ + (
     | default('default')
 ) + _
 
-column_setting_with_property = column_setting | prop.set_results_name('property', list_all_matches=True)
+column_setting_with_property = column_setting | (_ + prop.set_results_name('property', list_all_matches=True) + _)
 
 column_settings = '[' - column_setting + ("," + column_setting)[...] + ']' + c
 
